@@ -13,7 +13,7 @@ PY = "/venv/bin/python"
 ENGINES = [
     {"name": "E-SCEN", "path": "mc/scen.py", "kind_free_text": "scenario explorer: background + k probe units over (status x location) x run configuration, one real get_estimates per scenario"},
     {"name": "E-SEAM", "path": "mc/checks", "kind_free_text": "narrow-seam explorer: one real method, its state fields/arguments filled with every tuple of a value alphabet"},
-    {"name": "E-HIST", "path": "mc/hist.py", "kind_free_text": "explicit-state breadth-first search over call histories on real client/model objects, states rebuilt by replay, canonical fingerprints"},
+    {"name": "E-HIST", "path": "mc/checks/c12.py", "kind_free_text": "explicit-state breadth-first search over call histories on real client/model objects, states rebuilt by replay, canonical fingerprints"},
     {"name": "E-FAULT", "path": "mc/fakes.py", "kind_free_text": "environment/fault enumerator: scripted S3 listing/downloads, recording object store, solver seam failing at position k"},
 ]
 
